@@ -70,7 +70,7 @@ pub struct Aggregate {
 }
 
 impl Aggregate {
-    fn absorb(&mut self, idx: u64, m: &Metrics) {
+    fn absorb(&mut self, idx: u64, m: &Metrics, keep_hashes: bool) {
         for (k, v) in &m.counters {
             *self.counters.entry(k).or_insert(0) += v;
         }
@@ -85,7 +85,9 @@ impl Aggregate {
             self.nontrivial.insert(k);
         }
         self.games.insert(m.game_hash);
-        self.log_hashes.insert(idx, m.log_hash);
+        if keep_hashes {
+            self.log_hashes.insert(idx, m.log_hash);
+        }
         for (k, v) in &m.records {
             self.records.push((idx, k.clone(), *v));
         }
@@ -125,6 +127,10 @@ pub struct BatchResult<C> {
 }
 
 pub fn run_batch<P: Prop>(p: &P, tier: Tier, seed: u64, n_runs: u64, wall_cap_s: f64) -> BatchResult<P::Case> {
+    run_batch_opt(p, tier, seed, n_runs, wall_cap_s, false)
+}
+
+pub fn run_batch_opt<P: Prop>(p: &P, tier: Tier, seed: u64, n_runs: u64, wall_cap_s: f64, keep_hashes: bool) -> BatchResult<P::Case> {
     let next = AtomicU64::new(0);
     let limit = AtomicU64::new(n_runs);
     let agg = Mutex::new(Aggregate::default());
@@ -148,7 +154,7 @@ pub fn run_batch<P: Prop>(p: &P, tier: Tier, seed: u64, n_runs: u64, wall_cap_s:
                 let out = p.run(&case);
                 let mut a = agg.lock().unwrap();
                 a.evaluations += 1;
-                a.absorb(idx, &out.metrics);
+                a.absorb(idx, &out.metrics, keep_hashes);
                 if idx % sample_every == 0 && a.samples.len() < 8 {
                     let mut s = p.summary(&case);
                     if let Some(o) = s.as_object_mut() {
@@ -539,7 +545,7 @@ pub fn check_main<P: Prop>(p: &P, tier: Tier) -> Outcome {
 /// processes / job counts by `selftest.sh`).
 pub fn dump_hashes<P: Prop>(p: &P, tier: Tier, n: u64) {
     let seed = verif_seed();
-    let res = run_batch(p, tier, seed, n, 1e9);
+    let res = run_batch_opt(p, tier, seed, n, 1e9, true);
     for (i, h) in &res.agg.log_hashes {
         println!("{} {} {:016x}", p.id(), i, h);
     }
